@@ -532,6 +532,13 @@ def stb99_ops(rng, tier, f, prefix):
         g = list(par)
         g[3] = hx(qq, 33)
         add(g, "q:" + k)
+    # another r-bit prime that does not divide p - 1, with a recomputed consistently: only `q | p - 1` fails
+    q2 = q
+    while q2 == q or (p - 1) % q2 == 0:
+        q2 = rand_prime(rng, r)
+    g = list(par)
+    g[3], g[4] = hx(q2, 33), hx(mont_pow(p, l, d, (p - 1) // q2), 308)
+    add(g, "q:other-prime-not-dividing-p-1")
     for k, ll, rr in (("l+1", l + 1, r), ("r+1", l, r + 1), ("other-level", STB99_LR[1][0] if l != STB99_LR[1][0] else STB99_LR[0][0], r), ("l=0", 0, 0)):
         g = list(par)
         g[0], g[1] = str(ll), str(rr)
